@@ -58,6 +58,31 @@ type c17Case struct {
 	Mut    []string `json:"mutations,omitempty"`
 	Soup   []int    `json:"soup,omitempty"`
 	K      int      `json:"k,omitempty"`
+	// Grid: one frame of the structure grid {type, flags, length, first octet, stream role, filler}
+	Grid *c17Grid `json:"grid,omitempty"`
+}
+
+// c17Grid is a single frame given by its header fields and the octets that
+// drive the parsers' structure decisions (pad length, first octet of a fixed
+// field); it is sent on a live connection with one request open on stream 1.
+type c17Grid struct {
+	Type   uint8 `json:"type"`
+	Flags  uint8 `json:"flags"`
+	Len    int   `json:"len"`
+	First  int   `json:"first"`  // value of payload[0] (when Len > 0)
+	Stream int   `json:"stream"` // 0 | 1 (open, handler running) | 3 (new)
+	Fill   uint8 `json:"fill"`
+}
+
+func (g c17Grid) frame() peer.Frame {
+	p := make([]byte, g.Len)
+	for i := range p {
+		p[i] = g.Fill
+	}
+	if g.Len > 0 {
+		p[0] = byte(g.First)
+	}
+	return peer.Frame{Type: g.Type, Flags: g.Flags, Stream: uint32(g.Stream), Payload: p}
 }
 
 func serialize(fs []peer.Frame) []byte {
@@ -246,6 +271,20 @@ func c17Exec(cs c17Case) (*fw.Violation, *harness.Server) {
 			h.SendFrames(c17Soup[i])
 			finishNew()
 		}
+	case "grid":
+		h.Send(peer.Preface)
+		h.SendFrames(peer.Settings())
+		h.SendFrames(peer.Headers(1, reqBlock(1, "POST"), peer.HeadersOpt{EndHeaders: true, Pad: -1}))
+		if !h.Returned {
+			h.SendFrames(cs.Grid.frame())
+			finishNew()
+		}
+		if !h.Returned {
+			// the connection is still there: it has to carry a request
+			h.SendFrames(peer.Headers(5, reqBlock(5, "GET"), peer.HeadersOpt{EndStream: true, EndHeaders: true, Pad: -1}))
+			finishNew()
+		}
+		shape = "grid-" + peer.TypeName(cs.Grid.Type)
 	case "writefail":
 		h.C.WriteFailAt = cs.K
 		h.Send(peer.Preface)
@@ -406,6 +445,36 @@ func runC17(c *fw.Ctx) {
 		rec4(nil)
 	}
 	c.Family("soup")
+	// structure grid: every type x defined-flag subset x length 0..12 x first octet x stream role x filler
+	ng := 0
+	for t := 0; t <= 10; t++ {
+		for _, fl := range []uint8{0, 0x1, 0x4, 0x5, 0x8, 0x9, 0xc, 0xd, 0x20, 0x21, 0x24, 0x25, 0x28, 0x29, 0x2c, 0x2d} {
+			for l := 0; l <= 12; l++ {
+				firsts := []int{0}
+				if l > 0 {
+					firsts = []int{0, 1, l - 1, l, 0x80, 255}
+				}
+				seen := map[int]bool{}
+				for _, f := range firsts {
+					if seen[f] {
+						continue
+					}
+					seen[f] = true
+					for _, st := range []int{0, 1, 3} {
+						for _, fill := range []uint8{0, 0x82} {
+							if !thorough && fill == 0 && t != 1 && t != 5 && t != 9 {
+								continue // quick: the zero filler only where a header block is decoded
+							}
+							ng++
+							do(c17Case{Family: "grid", Late: ng%2 == 0, Grid: &c17Grid{Type: uint8(t), Flags: fl, Len: l, First: f, Stream: st, Fill: fill}})
+						}
+					}
+				}
+			}
+		}
+	}
+	c.Bound["grid_frames"] = ng
+	c.Family("grid")
 	for k := 1; k <= 14; k++ {
 		for _, late := range []bool{false, true} {
 			do(c17Case{Family: "writefail", K: k, Late: late})
